@@ -399,6 +399,16 @@ mutant("c02-any-ignores-first", "C02", "builtins.py",
 neutral("c02-any-return-inside-scope", ["C02", "C04", "C05", "C18"], "builtins.py",
         "            if element:\n                return True\n    return False", "            if element:\n                return True\n        return False")
 
+mutant("c01-cycle-replays-backwards", "C01", "itertools.py",
+       "        for item in buffer:\n            yield item", "        for item in reversed(buffer):\n            yield item", rule="R01.12")
+mutant("c01-chain-skips-second", "C01", "itertools.py",
+       "            async for iterable in iterables:\n                async with ScopedIter(iterable) as iterator:",
+       "            await anext(iterables, None)\n            async for iterable in iterables:\n                async with ScopedIter(iterable) as iterator:",
+       rule="R01.12")
+mutant("c05-callable-iter-extra-call", "C05", "builtins.py",
+       "    while value != sentinel:\n        yield value\n        value = await subject()",
+       "    while value != sentinel:\n        yield value\n        value = await subject()\n    await subject()", rule="R05.11")
+
 # --------------------------------------------------------------------------- C13
 mutant("c13-handlers-reordered", "C13", "contextlib.py",
        "            except StopAsyncIteration as exc:\n                return exc is not exc_tb\n            except RuntimeError as exc:\n                if exc is exc_val:\n                    return False\n                # Handle promotion of unhandled Stop[Async]Iteration to RuntimeError\n                if isinstance(exc_val, (StopIteration, StopAsyncIteration)):\n                    if exc.__cause__ is exc_val:\n                        return False\n                raise\n            except exc_type as exc:\n                if exc is not exc_val:\n                    raise\n                return False\n",
